@@ -82,7 +82,13 @@ where
         let a = MArr2::from_fn(|d| w0.base_rate[d[0]] * w1.base_rate[d[1]]);
         let u = MArr2::<V, D0, D1>::indexes()
             .filter(|&d| a[d] > V::zero())
-            .map(|d| (p[d] - w0.b()[d[0]] * w1.b()[d[1]]) / a[d])
+            // (P0*P1 - b0*b1) / (a0*a1) with P = b + a*u, expanded so that no nearly equal quantities are subtracted
+            // (the difference cancels to rounding noise for small base rates, and the noise is then divided by them)
+            .map(|d| {
+                let r0 = w0.b()[d[0]] / w0.base_rate[d[0]];
+                let r1 = w1.b()[d[1]] / w1.base_rate[d[1]];
+                w0.u() * (r1 + w1.u()) + r0 * w1.u()
+            })
             .reduce(<V>::min)
             .unwrap();
         let b = MArr2::from_fn(|d| p[d] - a[d] * u);
@@ -101,7 +107,12 @@ where
         let a = MArr3::from_fn(|d| w0.base_rate[d[0]] * w1.base_rate[d[1]] * w2.base_rate[d[2]]);
         let u = MArr3::<V, D0, D1, D2>::indexes()
             .filter(|&d| a[d] > V::zero())
-            .map(|d| (p[d] - w0.b()[d[0]] * w1.b()[d[1]] * w2.b()[d[2]]) / a[d])
+            .map(|d| {
+                let r0 = w0.b()[d[0]] / w0.base_rate[d[0]];
+                let r1 = w1.b()[d[1]] / w1.base_rate[d[1]];
+                let r2 = w2.b()[d[2]] / w2.base_rate[d[2]];
+                w0.u() * (r1 + w1.u()) * (r2 + w2.u()) + r0 * (w1.u() * (r2 + w2.u()) + r1 * w2.u())
+            })
             .reduce(<V>::min)
             .unwrap();
         let b = MArr3::from_fn(|d| p[d] - a[d] * u);
